@@ -21,9 +21,6 @@ structure FTok where
 
 def fmtTok : Fmt FTok := { fmt := fun x => x.txt, finite := fun x => x.v.isFinite }
 
-structure P (α : Type) where
-  run : List String → Option (α × List String)
-
 def nat? (ws : List String) : Option (Nat × List String) :=
   match ws with
   | w :: r => w.toNat?.map (fun n => (n, r))
